@@ -250,3 +250,98 @@ def roundtrip_canaries():
             ("chef level header: min and max tables swapped",
              [("amr_kitchen/chef/chef.py", "                for min_vals in new_mins:", "                for min_vals in new_maxs:")],
              ["chef-headers-roundtrip[nf=2,boxes=[1, 2],kept=1]"])]
+
+
+MM_ = "amr_kitchen.mandoline.mandoline.Mandoline."
+
+
+class Slice2dHeaderRoundTrip(Task):
+    """Mandoline.write_2d_slice_global_header (real body) on a reader parsed from a 3D plotfile (real parser), possibly with a
+    level limit below the finest level, then the real parser (header only) on what was written: a 2D plotfile header with the
+    input's time, the in-plane bounds, the in-plane cell sizes and grid sizes of levels 0..limit and nothing of the levels
+    above the limit."""
+    prop = "C16"
+    reach = "S"
+    qual = MM_ + "write_2d_slice_global_header"
+    inline = INLINE_PCK + (PCK + "__init__", MM_ + "write_2d_slice_global_header")
+
+    def __init__(self, nboxes, limit, cn):
+        self.cfg = dict(nboxes=nboxes, limit=limit, cn=cn)
+        self.name = f"slice-2d-header-roundtrip[boxes={nboxes},limit={limit},normal={cn}]"
+
+    def functions(self):
+        return [self.qual, PCK + "__init__"] + list(INLINE_PCK)
+
+    def setup(self, ex):
+        c = self.cfg
+        pf = SkelPF(3, 2, c["nboxes"])
+        fs = TextFS()
+        ex.ctx.ghost["fs"] = fs
+        root = plt_path()
+        install(ex, fs, root, pf)
+        for a in pf.wf_assumptions():
+            ex.ctx.assume(a)
+        return {"pf": pf, "fs": fs, "root": root}
+
+    def call(self, ex, inp):
+        c, pf, root = self.cfg, inp["pf"], inp["root"]
+        cn = c["cn"]
+        cx, cy = [d for d in range(3) if d != cn]
+        ex.call_depth += 1
+        try:
+            m = Record("amr_kitchen.mandoline.mandoline.Mandoline")
+            ex.call_qual(PCK + "__init__", [root], dict(limit_level=c["limit"]), self_obj=m)
+            Lc = pf.L if c["limit"] is None else c["limit"]
+            m.attrs.update(cx=cx, cy=cy, cn=cn, nfidxs=2, pos=z3.Real("pos"))
+            names = [S(NameAtom(pf.names[0])), S(NameAtom(pf.names[1]))]
+            indexes = [list(range(pf.nboxes[lv])) for lv in range(Lc + 1)]
+            out = out_path()
+            from pyvc.libfile import bi_open
+            fobj = bi_open(ex, [join2(ex, out, "Header"), "w"], {})
+            ex.call_qual(MM_ + "write_2d_slice_global_header", [fobj, names, indexes], {}, self_obj=m)
+            ex.call_method(fobj, "close", [], {})
+            back = ex.instantiate("amr_kitchen.plotfile_cooker.PlotfileCooker", [out], dict(header_only=True))
+        finally:
+            ex.call_depth -= 1
+        return back, Lc, cx, cy
+
+    def post(self, ex, inp, out):
+        ctx = ex.ctx
+        ctx.oblige("raises-nothing", out.kind == "ret", "P", note=str(out.exc))
+        if out.kind != "ret":
+            return
+        pf = inp["pf"]
+        back, Lc, cx, cy = out.value
+        A = back.attrs
+        ob = lambda name, f: ctx.oblige(f"roundtrip.{name}", f, "P")
+        ob("ndims-is-2", A.get("ndims") == 2)
+        ob("time", veq(ctx, A.get("time"), pf.time))
+        ob("finest-level-is-the-limit", A.get("max_level") == Lc and A.get("limit_level") == Lc)
+        ob("in-plane-lower-bounds", veq(ctx, A.get("geo_low"), [pf.geo_lo[cx], pf.geo_lo[cy]]))
+        ob("in-plane-upper-bounds", veq(ctx, A.get("geo_high"), [pf.geo_hi[cx], pf.geo_hi[cy]]))
+        dx = A.get("dx", [])
+        ob("cell-sizes-of-levels-up-to-the-limit", len(dx) == Lc + 1 and veq(ctx, dx, [[pf.dx[lv][cx], pf.dx[lv][cy]] for lv in range(Lc + 1)]))
+        gs = A.get("grid_sizes", [])
+        ob("grid-sizes-of-levels-up-to-the-limit", len(gs) == Lc + 1 and
+           veq(ctx, [list(ex.as_iterable(g)) for g in gs], [[pf.n[lv][cx], pf.n[lv][cy]] for lv in range(Lc + 1)]))
+        boxes = A.get("boxes", [])
+        ob("levels-exposed", len(boxes) == Lc + 1)
+        for lv in range(min(len(boxes), Lc + 1)):
+            exp = [[[pf.blo[lv][b][d], pf.bhi[lv][b][d]] for d in (cx, cy)] for b in range(pf.nboxes[lv])]
+            ob(f"in-plane-footprints-of-the-boxes[{lv}]", veq(ctx, boxes[lv], exp))
+        fields = A.get("fields", {})
+        ob("fields-in-order", list(fields.values()) == [0, 1])
+
+
+def slice_header_tasks(tier):
+    out = [Slice2dHeaderRoundTrip([1, 2], 0, 1), Slice2dHeaderRoundTrip([1, 2], None, 0)]
+    if tier == "thorough":
+        out += [Slice2dHeaderRoundTrip([2, 1, 1], 1, 2), Slice2dHeaderRoundTrip([1], None, 2)]
+    return out
+
+
+def slice_header_canaries():
+    return [("2D slice header: cell sizes of every parsed level written",
+             [("amr_kitchen/mandoline/mandoline.py", "        for lv in range(self.limit_level + 1):\n            fobj.write(f\"{self.dx[lv][self.cx]} {self.dx[lv][self.cy]}\\n\")",
+               "        for lv in range(len(self.dx)):\n            fobj.write(f\"{self.dx[lv][self.cx]} {self.dx[lv][self.cy]}\\n\")")],
+             ["slice-2d-header-roundtrip[boxes=[1, 2],limit=0,normal=1]"])]
